@@ -5,11 +5,44 @@ import json, os, subprocess, sys
 HERE = os.path.dirname(os.path.abspath(__file__))
 
 E1 = "E1 small-scope enumerator"
+E2 = "E2 choice-point explorer"
+E3 = "E3 explicit-state search over histories"
+E4 = "E4 schedule explorer"
+E5 = "E5 crash-point and fault enumerator"
+PURE = "Pure-Python fastavro only (Cython is not installed, .pyx mirrors cannot be rebuilt); reference model in mc/ref is the trusted base."
 CHECKS = {
+    "C01": dict(engine=E1, category="exploration", design_ref="DESIGN.md 4/C01",
+        technique="bounded exhaustive enumeration: schema family x deviation-bounded data D_k, round trip compared bit-exactly with a reference normalisation",
+        text="Every schema of the stated family (raw and pre-parsed) times the complete deviation-bounded datum set D_k is written, read back, compared bit-exactly with the reference normalisation, stream position and back-to-back reads included. Exhaustive within the alphabets and the bound k reported per schema; nothing is sampled.",
+        note=PURE),
+    "C02": dict(engine=E1, category="exploration", design_ref="DESIGN.md 4/C02",
+        technique="bounded exhaustive enumeration against an independently written Avro binary encoder/decoder, byte for byte",
+        text="Same case space as C01; the bytes are decoded by an independent decoder, every union index must select a conforming branch and the independent encoder must reproduce the bytes exactly, which a symmetric writer/reader error cannot pass.",
+        note=PURE),
+    "C03": dict(engine=E1 + " + " + E2, category="exploration", design_ref="DESIGN.md 4/C03",
+        technique="exhaustive enumeration of every block layout (odometer over the independent encoder's choice points), every out-of-range index at every index position, every proper prefix",
+        text="For every schema and D_1 datum with small collections, every composition of each array/map into positive/negative-count blocks is decoded on the read and the skip path; every out-of-range index at every union/enum position and every proper prefix must raise. Exhaustive within collection size and the index alphabet.",
+        note=PURE),
+    "C04": dict(engine=E1, category="exploration", design_ref="DESIGN.md 4/C04",
+        technique="bounded exhaustive enumeration of schema kind x record list x codec x every sync_interval (small files) x one-axis deviations of level/metadata/form/marker/stream kind",
+        text="Every configuration of the stated product is written and read back from the bytes alone; records, canonical writer schema, codec and metadata are compared with the reference; wrapper streams prove only read / write+flush are needed.",
+        note=PURE + " snappy/zstandard/lz4 recorded unavailable when not importable."),
+    "C05": dict(engine=E1 + " + " + E2, category="exploration", design_ref="DESIGN.md 4/C05",
+        technique="exhaustive enumeration of container layouts in both directions against an independent container parser/writer; exhaustive short byte strings for is_avro",
+        text="Every file of the C04 family is parsed by an independent parser; every block partition (with empty blocks), metadata chunking and codec-key variant from an independent writer is read by reader and block_reader; all Java-written fixtures compared; block_reader tiling checked on every file; is_avro decided on every byte string of length <=6 over a 6-symbol alphabet.",
+        note=PURE + " snappy fixtures skipped (library absent)."),
+    "C06": dict(engine=E5, category="fault_enumeration", design_ref="DESIGN.md 4/C06",
+        technique="exhaustive crash-point enumeration: every cut offset of every file, every single-byte alteration of every sync marker, every proper schemaless prefix",
+        text="Every truncation offset and every marker-byte alteration (3 xor masks) of files over codecs x block counts x schemas is read by reader and block_reader and judged against block boundaries from an independent parser. Exhaustive over single faults.",
+        note=PURE + " single-fault model."),
+    "C07": dict(engine=E3, category="model_checking", design_ref="DESIGN.md 4/C07",
+        technique="explicit-state breadth-first search over operation histories of the real Writer (replay-from-fresh, canonical state merging) against a reference model list",
+        text="All histories over the write/flush/copy/failed-write/reopen alphabet to the stated depth are explored breadth-first on the real Writer with sound state merging; after every flush/reopen the real reader and an independent parser must return exactly the model list and the header must be unchanged; the pending buffer must match block_count after every operation.",
+        note=PURE + " Depth bound stated in evidence (depth_completed)."),
     "C14": dict(
         engine=E1, category="exploration", design_ref="DESIGN.md 4/C14",
         technique="bounded exhaustive enumeration of texts x algorithm names against a bit-serial CRC reference / hashlib",
-        text="Every text of <=2 code points over the stated ranges (all UTF-8 lengths, every CRC table index from many predecessor states), long texts and schema canonical forms, for every advertised fixed-length algorithm and every unknown-name spelling of the alphabet, is compared with an independent bit-serial CRC-64-AVRO and hashlib. Exhaustive within the alphabet; says nothing about longer arbitrary texts beyond the sampled lengths, which is acceptable because the CRC state machine has 256 table entries and a 64-bit register whose per-byte step is covered for every (index) entry.",
+        text="Every text of <=2 code points over the stated ranges (all UTF-8 lengths, every CRC table index from many predecessor states), long texts and schema canonical forms, for every advertised fixed-length algorithm and every unknown-name spelling of the alphabet, is compared with an independent bit-serial CRC-64-AVRO and hashlib. Exhaustive within the alphabet.",
         note="Trusts hashlib and the four Apache vectors anchoring mc/ref/rabin.py; pure-Python fastavro only.",
     ),
 }
@@ -49,8 +82,16 @@ def main():
             "add_only": True,
         },
         "engines": [
-            {"name": E1, "path": "mc/enum.py", "serves_properties": sorted(k for k, v in CHECKS.items() if v["engine"] == E1),
+            {"name": E1, "path": "mc/alphabet.py", "serves_properties": sorted(k for k, v in CHECKS.items() if E1 in v["engine"]),
              "kind_free_text": "deviation-bounded exhaustive enumeration of schema x datum x configuration against an independent reference model (mc/ref)"},
+            {"name": E2, "path": "mc/props/c03.py", "serves_properties": sorted(k for k, v in CHECKS.items() if E2 in v["engine"]),
+             "kind_free_text": "stateless odometer/DFS over recorded choice points (layout choices of the independent encoder, answers of the scripted random source)"},
+            {"name": E3, "path": "mc/props/c07.py", "serves_properties": sorted(k for k, v in CHECKS.items() if E3 in v["engine"]),
+             "kind_free_text": "breadth-first explicit-state search; a state is the history reaching it, rebuilt on fresh real objects; canonical-state merging"},
+            {"name": E4, "path": "mc/sched.py", "serves_properties": sorted(k for k, v in CHECKS.items() if E4 in v["engine"]),
+             "kind_free_text": "sys.settrace baton scheduler over real threads with iterative preemption bounding"},
+            {"name": E5, "path": "mc/props/c06.py", "serves_properties": sorted(k for k, v in CHECKS.items() if E5 in v["engine"]),
+             "kind_free_text": "every cut offset / every marker byte alteration of real writer output"},
         ],
         "checks": checks,
         "not_applicable": na,
